@@ -96,6 +96,8 @@ def make_backend_class():
 
         def configure(self, n_jobs=1, parallel=None, **kw):
             self.parallel = parallel
+            for h in self.hooks:
+                h(("configure", None))
             return self.effective_n_jobs(n_jobs)
 
         def start_call(self):
@@ -238,7 +240,8 @@ def ScriptedBackend(*a, **kw):
 class AutoController:
     """1-3 threads completing pending batches in seeded random order"""
 
-    def __init__(self, be, rng, nthreads=1, late_prob=0.5, jitter=True, hold=None):
+    def __init__(self, be, rng, nthreads=1, late_prob=0.5, jitter=True, hold=None, late_at_configure=0.0):
+        self.late_at_configure = late_at_configure
         self.be, self.rng, self.nthreads = be, rng, nthreads
         self.late_prob, self.jitter = late_prob, jitter
         self.hold = hold or (lambda fut: False)   # batches that never complete
@@ -246,8 +249,33 @@ class AutoController:
         self.threads = []
         self.lock = threading.Lock()
 
+    def on_event(self, ev):
+        """late completions may arrive at any time - in particular while the
+        next call is being set up (backend.configure runs between the reset of
+        Parallel's run tracking and the start of the call)"""
+        if ev[0] != "configure" or not self.be.late:
+            return
+        with self.lock:
+            go = self.rng.random() < self.late_at_configure
+        if not go:
+            return
+        with self.be.cv:
+            futs = list(self.be.late)
+            del self.be.late[:]
+
+        def deliver():
+            for f in futs:
+                self.be._run(f)
+                self.be._callback(f)
+
+        t = threading.Thread(target=deliver, daemon=True)
+        t.start()
+        t.join(10)
+
     def start(self):
         self.stop = False
+        if self.on_event not in self.be.hooks:
+            self.be.hooks.append(self.on_event)
         self.threads = [threading.Thread(target=self._loop, daemon=True) for _ in range(self.nthreads)]
         for t in self.threads:
             t.start()
